@@ -176,3 +176,14 @@ Definition cert_bp (c : bp_case) : bool :=
       end
   | BInvalid => true
   end.
+
+(* hypothesis of C17_optimal_partial_eps0, evaluated on the eps = 0 model run whenever that run says OPTIMAL *)
+Definition residue_cg (c : cg_case) : bool :=
+  match fst c with
+  | InCs s w d mi =>
+      match solve_cg 0 s w d mi with
+      | Done r => match r_status r with OPTIMAL => simplex_residue d r | _ => true end
+      | _ => true
+      end
+  | _ => true
+  end.
